@@ -94,6 +94,9 @@ def body_walk(func, into_lambda=True) -> Iterator[ast.AST]:
   """All nodes of a function's own body (not nested defs)."""
   func = _n(func)
   for st in func.body if not isinstance(func, ast.Lambda) else [func.body]:
+    if isinstance(st, FUNC_TYPES + (ast.ClassDef,)):
+      yield st  # the nested definition itself, not its body
+      continue
     yield from walk_shallow(st, into_lambda=into_lambda)
 
 
